@@ -15,14 +15,21 @@ vars == <<l, cs, st>>
 NoCase == [emu |-> "none", resized |-> FALSE, dead |-> FALSE, modelled |-> FALSE]
 Init == l = 1 /\ cs = NoCase /\ st = InitSt(1, 1, TRUE, 0, FALSE) /\ InitRegs
 
-Scalar(c) == (c >= 0 /\ c <= 55295) \/ (c >= 57344 /\ c <= 1114111)
 FixedGrid(emu) == emu = "viewdata" \/ emu = "mode7"
 FirstVisible(e) == IF e.bh - e.th > 0 THEN e.bh - e.th ELSE 0
-CaretInScreen(e) == /\ e.cx >= 0 /\ e.cx <= e.tw - 1
+CaretInScreenE(e) == /\ e.cx >= 0 /\ e.cx <= e.tw - 1
                     /\ e.cy >= FirstVisible(e) /\ e.cy <= FirstVisible(e) + e.th - 1
 RowsScalar(e) == \A i \in 1..Len(e.rows) : \A j \in 1..Len(e.rows[i][2]) : Scalar(e.rows[i][2][j][1])
 
 Geo(e) == [cx |-> e.cx, cy |-> e.cy, tw |-> e.tw, th |-> e.th, bw |-> e.bw, bh |-> e.bh]
+
+\* operator arguments are evaluated once, LET definitions inside an action once per use: keep the expensive
+\* model step and comparison in arguments
+ModelPart(exp, same, e) ==
+  /\ Bump(7)
+  /\ Expect(same /\ (exp.res = "any" \/ exp.res = e.r), "step", l, [c |-> e.c, ls |-> st.ls, diff |-> Diff(exp.st, e), res |-> <<exp.res, e.r>>])
+  /\ st' = IF same THEN exp.st ELSE Adopt(exp.st, e)
+WithExp(exp, e) == ModelPart(exp, Matches(exp.st, e), e)
 
 Next ==
   /\ l <= Len(Rec)
@@ -30,7 +37,7 @@ Next ==
      CASE e.ev = "reset" ->
             /\ Bump(4)
             /\ cs' = [emu |-> e.emu, resized |-> FALSE, dead |-> FALSE, modelled |-> Modelled(e.emu)]
-            /\ st' = InitSt(e.w, e.h, e.alloc = 1, e.music, e.bs = 1)
+            /\ st' = InitStE(e.emu, e.w, e.h, e.alloc = 1, IF e.emu = "ansi" THEN e.music ELSE 0, e.emu = "ansi" /\ e.bs = 1)
        [] e.ev = "ch" ->
             /\ Bump(3)
             \* ---- property layer -------------------------------------------------
@@ -38,17 +45,14 @@ Next ==
             /\ LET resizedNow == cs.resized \/ e.a = "Resize" IN
                /\ IF e.r # "panic" /\ ~resizedNow
                   THEN /\ Bump(5)
-                       /\ Check(CaretInScreen(e), "C09", "CaretInScreen", l, Geo(e) @@ [emu |-> cs.emu, c |-> e.c])
+                       /\ Check(CaretInScreenE(e), "C09", "CaretInScreen", l, Geo(e) @@ [emu |-> cs.emu, c |-> e.c])
                        /\ Check(FixedGrid(cs.emu) => (e.bw = 40 /\ e.bh = 24), "C09", "FixedGrid", l, Geo(e) @@ [emu |-> cs.emu, c |-> e.c])
                   ELSE TRUE
                /\ IF Has(e, "rows") THEN Bump(6) /\ Check(RowsScalar(e), "C10", "CellsScalar", l, [emu |-> cs.emu, c |-> e.c]) ELSE TRUE
                /\ Check(~Has(e, "us") \/ e.us <= 5000000, "C03", "StepTime", l, [emu |-> cs.emu, c |-> e.c])
                \* ---- model layer ------------------------------------------------
                /\ IF cs.modelled /\ e.r # "panic"
-                  THEN LET exp == Step(st, e.c) IN
-                       /\ Bump(7)
-                       /\ Expect(Matches(exp.st, e) /\ exp.res = e.r, "step", l, [c |-> e.c, ls |-> st.ls, diff |-> Diff(exp.st, e), res |-> <<exp.res, e.r>>])
-                       /\ st' = Adopt(exp.st, e)
+                  THEN WithExp(Step(st, e.c), e)
                   ELSE st' = st
                /\ cs' = [cs EXCEPT !.resized = resizedNow, !.dead = (e.r = "panic")]
        [] e.ev = "crash" ->
